@@ -393,21 +393,32 @@ def check_c08(case, stats=None):
         if p.ret is None or p.ret < 0 or p.end is None:
             continue
         m = p.target
-        if p.state_at_send.get(m) != "R":
+        if p.state_at_send.get(m) not in ("R", "P"):
             continue
+        if p.pending_at_send.get(m, 0) >= MAILBOX_SAFE:
+            continue            # the mailbox may have been full: the pill can be lost like any other message (C02's proviso)
         if effective_until.get(m, -1) > p.begin:
             continue            # shadowed by an earlier pill that had not taken effect yet: it will never be read
         if stats is not None:
             stats["pills"] = stats.get("pills", 0) + 1
+            if p.state_at_send.get(m) == "P":
+                stats["pills_to_paused"] = stats.get("pills_to_paused", 0) + 1
         # moment the pill took effect: first time m is observed not RUNNING after the pill was sent
         eff = None
         for i, l in W.state_hist.get(m, []):
             if i > p.begin and l != "R":
                 eff = (i, l)
                 break
-        effective_until[m] = eff[0] if eff else len(W.recs)
-        # nothing sent after the pill may be delivered before m left RUNNING
-        limit = eff[0] if eff else len(W.recs)
+        # an accepted pill stays in force while the recipient is only paused and resumed (its mailbox is kept, or - PAUSED at
+        # loop stop - discarded together with the pill, which then stops it): nothing sent after it is delivered until the
+        # recipient has been stopped or deregistered
+        gone = None
+        for i, l in W.state_hist.get(m, []):
+            if i > p.begin and l not in ("R", "P"):
+                gone = i
+                break
+        effective_until[m] = gone if gone is not None else len(W.recs)
+        limit = gone if gone is not None else len(W.recs)
         for (r, mm, s, in_unstash, hb) in W.deliveries:
             if mm != m or in_unstash or s is None or s.end is None:
                 continue
@@ -421,7 +432,9 @@ def check_c08(case, stats=None):
                     continue
                 if m not in s.eligible or s.state_at_send.get(m) != "R":
                     continue
-                if m in W.batching or m in s.low_or_oneshot or s.pending_at_send.get(m, 0) >= MAILBOX_SAFE:
+                # (also when the recipient batches its events or the message came through a low-priority subscription: what
+                # was accumulated is handed over before the pill takes effect)
+                if s.pending_at_send.get(m, 0) >= MAILBOX_SAFE:
                     continue
                 if W.left_active_between(m, s.begin, eff[0] - 1) or _was_paused_between(W, m, s.begin, eff[0]):
                     continue
